@@ -86,14 +86,17 @@ def oracle_fill(system, cols, vals, T, outcome, kw=None):
 DEFAULT_SYMMETRY_BLOCK = {"ignore_residuals": False, "ignore_rank": False, "drop_atol": 1.0e-8, "residual_atol": 0.1}   # documented defaults
 
 
-def run_elastdata(system, T, supplied, full_block=False, symmetry=None):
+def run_elastdata(system, T, supplied, full_block=False, symmetry=None, key_orders=None):
     """apply_symetry_on_elast_data on an ElastData built from the supplied components; `full_block`: the symmetry block as the
     Calculator passes it (system + the four documented default settings) instead of the bare {"system": ...}."""
     from cij.io.traditional.elast_dat import ElastData, ElastVolumeData, apply_symetry_on_elast_data
     from cij.util import c_
     vols = []
     for r in range(T.shape[0]):
-        vols.append(ElastVolumeData(100.0 + r, dict((c_(fc.SYMS[i][1:]), float(T[r, i])) for i in supplied)))
+        # `key_orders`: per volume, the order in which the mapping of that volume lists the components (an ElastData assembled from
+        # separate calculations need not list them in one order; a mapping is addressed by NAME)
+        order = supplied if key_orders is None else key_orders[r]
+        vols.append(ElastVolumeData(100.0 + r, dict((c_(fc.SYMS[i][1:]), float(T[r, i])) for i in order)))
     data = ElastData(100.0, T.shape[0], 10.0, vols, [])
     try:
         if symmetry is None:
@@ -275,6 +278,33 @@ def run(ctx: Ctx) -> Result:
                 res.oracle_failures.append(OracleFailure(what=f"apply_symetry_on_elast_data, call {rep + 1} with the same settings dictionary: " + what,
                                                          input={"check": "elastdata-shared", "system": system, "calls": rep + 1, "supplied": list(S), "tensor": T.tolist()},
                                                          observed=obs, expected=exp, site=f"c08:elastdata-shared:{system}"))
+    # volumes whose mappings list the same components in DIFFERENT orders, and explicit zero columns for symmetry-forbidden components
+    # (the filled volumes must hold exactly the invariant tensor's non-vanishing components, addressed by name)
+    n_named = 0
+    dependent2 = [s_ for s_ in fc.SYSTEMS if len(fc.invariant_basis(s_)["nonzero"]) > fc.EXPECTED_DIM[s_]]
+    for k in range(4 if ctx.thorough() else 2):
+        system = dependent2[(ctx.seed + 3 + k) % len(dependent2)]
+        info = fc.invariant_basis(system)
+        mins = fc.minimal_sufficient_subsets(system)
+        S = list(mins[int(rng.integers(0, len(mins)))])
+        forbidden = [i for i in range(21) if i not in set(info["nonzero"])]
+        zeros = [int(x) for x in rng.choice(forbidden, size=min(2, len(forbidden)), replace=False)] if (forbidden and k % 2 == 1) else []
+        nrow = int(rng.integers(2, 5))
+        T = fc.random_invariant(system, nrow, rng)
+        sup = S + zeros
+        orders = [[sup[i] for i in rng.permutation(len(sup))] for _ in range(nrow)]
+        if all(o == orders[0] for o in orders): orders[-1] = list(reversed(orders[0]))
+        out = run_elastdata(system, T, sup, key_orders=orders)
+        res.evaluations += 1; n_named += 1
+        cols = [fc.SYMS[i] for i in sup]; vals = [[float(T[r, i]) for r in range(nrow)] for i in sup]
+        fails = oracle_fill(system, cols, vals, T, out)
+        if not fails: res.traces_validated += 1
+        for what, obs, exp in fails[:2]:
+            res.oracle_failures.append(OracleFailure(what="apply_symetry_on_elast_data (volumes listing their components in different orders"
+                                                          + (", explicit zero columns" if zeros else "") + "): " + what,
+                                                     input={"check": "elastdata-named", "system": system, "supplied": sup, "orders": orders, "tensor": T.tolist()},
+                                                     observed=obs, expected=exp, site=f"c08:elastdata-named:{system}"))
+    res.distribution["apply_symetry_on_elast_data_named_order_cases"] = n_named
     res.distribution["apply_symetry_on_elast_data_cases"] = n_el
     res.distribution["apply_symetry_on_elast_data_small_value_cases"] = n_small
     res.distribution["higher_symmetry_tensor_cases"] = n_sup
@@ -302,6 +332,12 @@ def search(ctx: Ctx, res: Result):
 def replay(ctx: Ctx, payload):
     T = numpy.array(payload["tensor"], dtype=float)
     system = payload["system"]
+    if payload.get("check") == "elastdata-named":
+        T = numpy.array(payload["tensor"], dtype=float); sup = list(payload["supplied"])
+        out = run_elastdata(system, T, sup, key_orders=payload["orders"])
+        cols = [fc.SYMS[i] for i in sup]; vals = [[float(T[r, i]) for r in range(T.shape[0])] for i in sup]
+        return [OracleFailure(what="apply_symetry_on_elast_data (named order): " + w, input=payload, observed=o, expected=e,
+                              site=f"c08:elastdata-named:{system}") for w, o, e in oracle_fill(system, cols, vals, T, out)[:2]]
     if payload.get("check") == "elastdata-shared":
         shared = dict(DEFAULT_SYMMETRY_BLOCK, system=system)
         S = payload["supplied"]
